@@ -276,6 +276,11 @@ pub fn run_exec<S: AS>(seed: u64, sseed: u64, mode: Mode, exec_no: u64) -> AccOu
         }
         let threads = std::mem::take(&mut *results.lock().unwrap());
         nops_total = threads.iter().map(|t| t.len()).sum();
+        if runner::with(|r| r.samples.len()) < 2 {
+            let mut all: Vec<Op> = threads.concat();
+            all.sort_by_key(|o| o.inv);
+            runner::sample(json!({"execution": desc, "history (load = a projection guard created on that root)": all.iter().take(40).map(|o| o.brief()).collect::<Vec<_>>()}), 2);
+        }
         match lin::check(&threads, init, Some(fin), &HashMap::new(), 400_000) {
             Verdict::Ok => runner::count("histories.linearizable", 1),
             Verdict::Violation(m) => report("C17", "not-linearizable", format!("projection loads vs stores: {}", m)),
